@@ -53,6 +53,13 @@ CHECKS.update({
          "virtual time: verdicts never depend on wall clock; exact ties between reply and timer accept either outcome", "3/C11"),
 })
 
+CHECKS.update({
+ "C20": ("client-e2e", "exploration",
+         "fault/close-point injection: close() injected after a drawn event index (stratified by client state seen in a close-free baseline run, also from inside completion callbacks) with monitors on operation Deferreds, simnet's attempt and write logs, and the reactor's delayed calls",
+         "A generated client workload is run once without close() to count events and to survey the states it passes through, then re-run with close() at drawn points. Checked: operations pending at close have failed by the end of that reactor event, new operations fail, no connection attempt or write after the close() call, the close Deferred fires exactly once and only when simnet shows no open connection or pending attempt, metadata maps are empty right after and at the end, no afkak delayed call survives. Two genuine defects are listed in known_findings.json by mechanism; any other violation exits 1.",
+         "one client per world; double close() not generated; a mutant that drops the nested close list is unobservable with this transport model (closing connections finish in call order)", "3/C20"),
+})
+
 PENDING = {}
 
 def main():
@@ -86,7 +93,7 @@ def main():
         "engines": [
             {"name": "pure", "path": "afkverif/props", "serves_properties": ["C15", "C18"], "kind_free_text": "direct calls of pure functions under generated inputs with reference oracles"},
             {"name": "brokerclient", "path": "afkverif/engines/bc.py", "serves_properties": ["C06", "C10"], "kind_free_text": "real _KafkaBrokerClient / KafkaBootstrapProtocol over simnet (virtual clock, in-memory transports) against a scripted raw server"},
-            {"name": "client-e2e", "path": "afkverif/engines/world.py", "serves_properties": ["C07", "C11"], "kind_free_text": "real KafkaClient stack on SimClock + simnet against simkafka (cluster model speaking the independent codec)"},
+            {"name": "client-e2e", "path": "afkverif/engines/world.py", "serves_properties": ["C07", "C11", "C20"], "kind_free_text": "real KafkaClient stack on SimClock + simnet against simkafka (cluster model speaking the independent codec)"},
             {"name": "codec", "path": "afkverif/refproto.py", "serves_properties": ["C04", "C05", "C12"], "kind_free_text": "independent strict Kafka wire codec used as differential oracle"},
         ],
         "checks": checks,
